@@ -647,30 +647,35 @@ def pickLowest (cur : Option (Bytes × Nat)) (pts : List (Bytes × Nat)) : Optio
   | some e => some e
   | none => lowestHolder pts
 
+/-- a newcomer meets a full pool: compare with the lowest holder `low`; reject the newcomer or evict `low` -/
+def cappedEvict (chain : Nat) (isLocal : Bool) (nc : Newcomer) (l : Ledger) (low : Bytes × Nat) :
+    M (Ledger × Option (Bytes × Nat)) := do
+  let xOut := safeMulDiv l.x low.2 l.p.total
+  let yOut := safeMulDiv l.y low.2 l.p.total
+  let totalShare ← mapErr (liquidityDepositPoints (subU64 l.p.total low.2) (subU64 l.x xOut) (subU64 l.y yOut) nc.amount)
+  let share := newcomerShare totalShare nc.amount nc.deposits
+  if share ≤ low.2 then
+    let s ← if isLocal then do
+        let s ← poolSub l.s (holdingId chain) nc.amount
+        accountAdd s ((nc.deposits.head?.map (·.addr)).getD []) nc.amount
+      else pure l.s
+    pure ({ l with s := s }, some low)
+  else
+    let l ← batchWithdraw l.s [{ percent := 100, addr := low.1, id := [] }] chain l.x l.y isLocal (some l.p) false
+    let l ← batchDepositCore l.s nc.deposits chain l.x l.y isLocal (some l.p) false
+    pure (l, none)
+
 /-- one iteration of the newcomer loop of `handleCappedBatchDeposit`: the ledger and the `lowest` pointer after it -/
 def cappedStep (chain : Nat) (isLocal : Bool) (nc : Newcomer) (l : Ledger) (lowest : Option (Bytes × Nat)) :
-    M (Ledger × Option (Bytes × Nat)) := do
+    M (Ledger × Option (Bytes × Nat)) :=
   if l.p.points.length < Gen.Dex.MaxLiquidityProviders then
-    let l ← batchDepositCore l.s nc.deposits chain l.x l.y isLocal (some l.p) false
-    pure (l, lowest)
+    match batchDepositCore l.s nc.deposits chain l.x l.y isLocal (some l.p) false with
+    | .error e => .error e
+    | .ok l => .ok (l, lowest)
   else
     match pickLowest lowest l.p.points with
-    | none => throw .InvalidLiquidityPool
-    | some low =>
-      let xOut := safeMulDiv l.x low.2 l.p.total
-      let yOut := safeMulDiv l.y low.2 l.p.total
-      let totalShare ← mapErr (liquidityDepositPoints (subU64 l.p.total low.2) (subU64 l.x xOut) (subU64 l.y yOut) nc.amount)
-      let share := newcomerShare totalShare nc.amount nc.deposits
-      if share ≤ low.2 then
-        let s ← if isLocal then do
-            let s ← poolSub l.s (holdingId chain) nc.amount
-            accountAdd s ((nc.deposits.head?.map (·.addr)).getD []) nc.amount
-          else pure l.s
-        pure ({ l with s := s }, some low)
-      else
-        let l ← batchWithdraw l.s [{ percent := 100, addr := low.1, id := [] }] chain l.x l.y isLocal (some l.p) false
-        let l ← batchDepositCore l.s nc.deposits chain l.x l.y isLocal (some l.p) false
-        pure (l, none)
+    | none => .error .InvalidLiquidityPool
+    | some low => cappedEvict chain isLocal nc l low
 
 /-- the newcomer loop of `handleCappedBatchDeposit` -/
 def cappedLoop (chain : Nat) (isLocal : Bool) : List Newcomer → Ledger → Option (Bytes × Nat) → M Ledger
